@@ -914,6 +914,17 @@ def x_instr_dump(co, opc, max_code=None, dup_lines=False):
     except Exception as e:
         res["shift_bad"] = ["raised %s: %s" % (type(e).__name__, e)]
     try:
+        # a Python 2 code object may carry co_code as a str (one character per byte): the same instructions
+        if opc.version_tuple < (3, 0) and isinstance(code, bytes) and len(code) <= 800 and hasattr(co, "replace"):
+            co_s = co.replace(co_code=code.decode("latin-1"))
+            a_ = [(i_.offset, i_.opcode, i_.arg) for i_ in x.bytecode.Bytecode(co, opc)]
+            b_ = [(i_.offset, i_.opcode, i_.arg) for i_ in x.bytecode.Bytecode(co_s, opc)]
+            if a_ != b_:
+                k_ = next((j for j in range(min(len(a_), len(b_))) if a_[j] != b_[j]), min(len(a_), len(b_)))
+                res["strcode_bad"] = "co_code given as str: row %d is %s, with bytes %s" % (k_, b_[k_:k_ + 1], a_[k_:k_ + 1])
+    except Exception as e:
+        res["strcode_bad"] = "co_code given as str: raised %s: %s" % (type(e).__name__, e)
+    try:
         # Bytecode(co, first_line=N) renumbers the listing; it must not touch the code object
         if isinstance(getattr(co, "co_firstlineno", None), int) and "linestarts" in res and len(code) <= 1200:
             before_first = co.co_firstlineno
